@@ -1,0 +1,31 @@
+//go:build verif
+
+package conditional
+
+import (
+	"time"
+
+	"github.com/jdillenkofer/pithos/internal/storage"
+)
+
+// Pure specification functions used by the contracts in zz_contracts_verif.go.
+
+// specCopyConditionsFail: S3 x-amz-copy-source-if-* semantics (time comparisons at second granularity; a passing
+// If-Match overrides If-Unmodified-Since). This is the rule a same-storage copy applies.
+func specCopyConditionsFail(c storage.CopySourceConditions, etag string, lastModified time.Time) bool {
+	lm := lastModified.Truncate(time.Second)
+	matchOK := c.IfMatch != nil && (*c.IfMatch == storage.ETagWildcard || *c.IfMatch == etag)
+	if c.IfMatch != nil && !matchOK {
+		return true
+	}
+	if c.IfNoneMatch != nil && (*c.IfNoneMatch == storage.ETagWildcard || *c.IfNoneMatch == etag) {
+		return true
+	}
+	if c.IfUnmodifiedSince != nil && !matchOK && lm.After(*c.IfUnmodifiedSince) {
+		return true
+	}
+	if c.IfModifiedSince != nil && !lm.After(*c.IfModifiedSince) {
+		return true
+	}
+	return false
+}
